@@ -2,6 +2,7 @@
    coq/C05/, followed by Print Assumptions. *)
 From Coq Require Import ZArith QArith Qabs List.
 From Scenic Require Import C05.Expr C05.SupportProofs C05.NodeProofs C05.SimplifyProofs C05.CaptureProofs.
+From Scenic Require Import C05.Vec C05.VecProofs C05.Pow.
 Import ListNotations.
 Open Scope Q_scope.
 
@@ -146,3 +147,101 @@ Proof.
   split; [|split; reflexivity].
   repeat (first [apply NE_un | apply NE_bin | apply NE_range | apply NE_drange | eapply NE_const; reflexivity | apply NE_leaf]).
 Qed.
+
+
+(* ------------------------------------------------------------------ vectors (round 3) *)
+(* The zero-vector identity shortcut of vectors.py (zeroIdentity on __add__ / __radd__ / __sub__; the guard is
+   "all three coordinates == 0"): (i) the guard as coded holds exactly for the exact zero vector under an operator
+   carrying the flag, (ii) whenever it fires the shortcut's result (the other operand itself) equals what plain Python
+   computes, for EVERY vector v, (iii) conversely the identity v op c = v forces c to be the zero vector, so the
+   shortcut may apply to nothing else. *)
+Theorem C05_vec_simplify_sound : forall o v c,
+  (zero_identity o && vzero_all c = true <->
+     zero_identity o = true /\ vx c == 0 /\ vy c == 0 /\ vz c == 0) /\
+  (zero_identity o && vzero_all c = true -> veq (vv o v c) v) /\
+  (zero_identity o = true -> veq (vv o v c) v -> vzero_all c = true).
+Proof. exact vec_simplify_sound. Qed.
+Print Assumptions C05_vec_simplify_sound.
+
+(* non-vacuity: the guard fires for Vector(0, 0, 0) under +, and not for Vector(0, 0, 5/2) *)
+Example C05_vec_simplify_example :
+  zero_identity OAdd && vzero_all (V3 0 0 0) = true /\ zero_identity OSub && vzero_all (V3 0 0 (5#2)) = false /\
+  zero_identity ORSub && vzero_all (V3 0 0 0) = false.
+Proof. repeat split. Qed.
+
+(* a guard keyed on x and y only (seed C05-4) is unsound: witness c = (0, 0, 1) *)
+Theorem C05_vec_simplify_xy_refuted :
+  exists v c, vzero_xy c = true /\ ~ vz c == 0 /\
+    ~ veq (vv OAdd v c) v /\ ~ veq (vv OSub v c) v /\ ~ veq (vv ORAdd v c) v.
+Proof. exact vec_simplify_xy_refuted. Qed.
+Print Assumptions C05_vec_simplify_xy_refuted.
+
+(* reflected subtraction (other - self) has no identity at all: its flag must stay off *)
+Theorem C05_vec_rsub_no_identity : forall c, exists v, ~ veq (vv ORSub v c) v.
+Proof. exact vec_rsub_no_identity. Qed.
+Print Assumptions C05_vec_rsub_no_identity.
+
+(* preservesZero (rotatedBy) is sound; it would not be for subtraction (0 - v <> 0) *)
+Theorem C05_vec_preserves_zero_sound : forall c s z, vzero_all z = true -> veq (vrot c s z) z.
+Proof. exact vec_preserves_zero_sound. Qed.
+Print Assumptions C05_vec_preserves_zero_sound.
+Theorem C05_vec_sub_not_zero_preserving : exists z v, vzero_all z = true /\ ~ veq (vv OSub z v) z.
+Proof. exact vec_sub_not_zero_preserving. Qed.
+Print Assumptions C05_vec_sub_not_zero_preserving.
+
+(* End to end for vector expressions (induction on the expression): for every tree over constant vectors, vectors with
+   random coordinates, VectorDistribution leaves and other vector-valued distributions, built with + - (also with a
+   constant tuple on either side: __radd__ / __rsub__), `relative to` / `offset by`, scalar * / on both sides and
+   rotatedBy, every zero test zt that only accepts exact zero vectors (the code's: vzero_all), every valuation: the
+   forest captured at compile time (helper of class Vector / handler of VectorDistribution / generic Distribution
+   handler, constant folding, identity shortcuts) evaluates to plain vector arithmetic on the samples; a compile-time
+   ZeroDivisionError happens only where Python raises it; the compile-time AttributeError exists only before the repair. *)
+Theorem C05_vec_capture_eval : forall fixed zt sigma rho, zt_sound zt -> forall e,
+  match vcap fixed zt e with
+  | COk n => oveq (nev sigma rho n) (veval sigma rho e)
+  | CZero => veval sigma rho e = None
+  | CAttr => fixed = false
+  end.
+Proof. exact vec_capture_eval. Qed.
+Print Assumptions C05_vec_capture_eval.
+
+Theorem C05_vzero_all_sound : zt_sound vzero_all.
+Proof. exact vzero_all_sound. Qed.
+
+(* non-vacuity: ((0,0,0) - (P + Vector(0,0,0))) * 1 is captured as __rsub__ on P itself, times 1 *)
+Example C05_vec_capture_example :
+  vcap true vzero_all (EMul (ETL true (V3 0 0 0) (EVBin false (ED 0%nat) (EC (V3 0 0 0)))) (SC 1))
+  = COk (NVS KOp OMul (NVV KOp ORSub (ND 0%nat) (NC (V3 0 0 0))) (SC 1)).
+Proof. reflexivity. Qed.
+
+(* with the x-y-only test the captured forest differs from Python (P + Vector(0,0,1) is captured as P) *)
+Theorem C05_vec_capture_xy_refuted :
+  exists e sigma rho n, vcap true vzero_xy e = COk n /\ ~ oveq (nev sigma rho n) (veval sigma rho e).
+Proof. exact vec_capture_xy_refuted. Qed.
+Print Assumptions C05_vec_capture_xy_refuted.
+
+(* finding (round 3): as coded, a constant tuple next to a VectorDistribution raises AttributeError at compile time
+   although plain Python evaluates; gone after the repair *)
+Theorem C05_vec_handler_tuple_asis_refuted :
+  exists e, vcap false vzero_all e = CAttr /\ forall sigma rho, veval sigma rho e <> None.
+Proof. exact vec_handler_tuple_asis_refuted. Qed.
+Print Assumptions C05_vec_handler_tuple_asis_refuted.
+Theorem C05_vec_capture_fixed_no_attr : forall zt e, zt_sound zt -> vcap true zt e <> CAttr.
+Proof. exact vec_capture_fixed_no_attr. Qed.
+Print Assumptions C05_vec_capture_fixed_no_attr.
+
+(* ------------------------------------------------------------------ reflected fallback, ** (round 3) *)
+(* sampleGiven for __pow__ / __rpow__ on two numbers (exponent value a non-negative integer) is Python's ** *)
+Theorem C05_pow_sample_num : forall refl a b x y, vnum a = Some x -> vnum b = Some y ->
+  pow_sample false refl a b = if refl then py_pow b a else py_pow a b.
+Proof. exact pow_sample_num. Qed.
+Print Assumptions C05_pow_sample_num.
+
+(* looking up the operator itself instead of its reverse in the fallback (seeds C05-3 / C01-4) is wrong for
+   every non-commutative operator: witnesses 2 ** 3.0 and 7 op 2.0 *)
+Theorem C05_reflected_fallback_mutant_refuted :
+  (exists a b, pow_sample true false a b <> py_pow a b /\ pow_sample false false a b = py_pow a b) /\
+  (forall o, In o [Sub; Div; FloorDiv; Mod] ->
+     exists a b, op_sample_mut o false a b <> py_binop o a b /\ op_sample true o false a b = py_binop o a b).
+Proof. exact reflected_fallback_mutant_refuted. Qed.
+Print Assumptions C05_reflected_fallback_mutant_refuted.
